@@ -37,6 +37,7 @@ import (
 	"time"
 
 	"github.com/alicebob/miniredis/v2"
+	"github.com/alicebob/miniredis/v2/server"
 	"github.com/zeromicro/go-zero/core/collection"
 	"github.com/zeromicro/go-zero/core/logx"
 	"github.com/zeromicro/go-zero/core/stores/cache"
@@ -216,21 +217,22 @@ func valueOf(r Row) any {
 }
 
 type fakeDB struct {
-	mid    int // >= 0: the next query first takes this cache node down (mid-operation outage)
-	mu     sync.Mutex
-	rows   map[string]Row
-	fault  bool
-	errv   error // what a failing query / exec returns
-	nf     error // what "no row" is reported as
-	qi     int
-	qp     int
-	seen   []string
-	gate   chan struct{} // conc: queries park here
-	gate2  chan struct{} // conc: queries that start after a context was killed park here
-	phase2 bool
-	leader int // conc: the reader whose query entered first (-1: none yet)
-	inq    int32
-	maxq   int32
+	mid     int // >= 0: the next query first takes this cache node down (mid-operation outage)
+	mu      sync.Mutex
+	rows    map[string]Row
+	fault   bool
+	errv    error // what a failing query / exec returns
+	nf      error // what "no row" is reported as
+	qi      int
+	qp      int
+	seen    []string
+	onQuery func() error  // ctx ops: runs when a database query / write is in progress (ends the op's context; a non-nil result is what the driver then reports)
+	gate    chan struct{} // conc: queries park here
+	gate2   chan struct{} // conc: queries that start after a context was killed park here
+	phase2  bool
+	leader  int // conc: the reader whose query entered first (-1: none yet)
+	inq     int32
+	maxq    int32
 }
 
 // a context the monitor ends by hand, with the error it chooses (cancellation or deadline)
@@ -259,6 +261,15 @@ func (c *manualCtx) kill(e error) {
 	}
 }
 
+// the context a query honours: the operation's own controller-driven context for the ctx ops (a
+// driver refuses to start under a context that is already done), none otherwise
+func qctx(ctx context.Context, m *manualCtx) context.Context {
+	if m != nil {
+		return ctx
+	}
+	return context.Background()
+}
+
 // enter: a database query starts.  It parks on the gate (conc kinds) like a slow query that
 // honours its context: it ends with ctx.Err() when the context of the reader that runs it dies.
 func (d *fakeDB) enter(ctx context.Context, id int) error {
@@ -272,6 +283,15 @@ func (d *fakeDB) enter(ctx context.Context, id int) error {
 		m := atomic.LoadInt32(&d.maxq)
 		if n <= m || atomic.CompareAndSwapInt32(&d.maxq, m, n) {
 			break
+		}
+	}
+	if err := ctx.Err(); err != nil {
+		return err
+	}
+	if f := d.onQuery; f != nil {
+		d.onQuery = nil
+		if err := f(); err != nil {
+			return err
 		}
 	}
 	d.mu.Lock()
@@ -353,6 +373,12 @@ func (d *fakeDB) write(pk string, present bool, u, v int64) error {
 	defer d.mu.Unlock()
 	if d.fault {
 		return d.errv
+	}
+	if f := d.onQuery; f != nil {
+		d.onQuery = nil
+		if err := f(); err != nil {
+			return err
+		}
 	}
 	if !present {
 		delete(d.rows, pk)
@@ -824,6 +850,42 @@ func runSeq(c Case) Out {
 			db.mid = base + num(op[2])
 			kind = kind[:len(kind)-3]
 		}
+		// the operation's context becomes done WHILE the operation runs: "takectx"/"qrictx"/"execctx" with a point
+		//   q / w : inside the database query / write, which itself completes      qe / we : ... and reports ctx.Err()
+		//   g : while the first GET is on the wire     s : while the first SET is on the wire     d : ... the first DEL
+		// and a cause (0: cancelled, 1: past its deadline).  Always through the ...Ctx methods of sqlc.
+		var mctx *manualCtx
+		errv0 := db.errv
+		if strings.HasSuffix(kind, "ctx") {
+			kind = kind[:len(kind)-3]
+			point := str(op[len(op)-2])
+			cause := context.Canceled
+			if num(op[len(op)-1]) != 0 {
+				cause = context.DeadlineExceeded
+			}
+			op = op[:len(op)-2]
+			mctx = newManualCtx()
+			ctx, plain, ch = mctx, false, nil
+			switch point {
+			case "q", "w":
+				db.onQuery = func() error { mctx.kill(cause); return nil }
+			case "qe", "we":
+				db.errv = cause
+				db.onQuery = func() error { mctx.kill(cause); return cause }
+			case "g", "s", "d":
+				for n := 0; n < wd.nodes; n++ {
+					servers[base+n].Server().SetPreHook(func(_ *server.Peer, cmd string, _ ...string) bool {
+						cmd = strings.ToUpper(cmd)
+						if (point == "g" && cmd == "GET") || (point == "d" && cmd == "DEL") ||
+							(point == "s" && (cmd == "SET" || cmd == "SETEX" || cmd == "SETNX")) {
+							mctx.kill(cause)
+						}
+						return false
+					})
+				}
+				db.errv = cause // a query started under the dead context is refused by the driver
+			}
+		}
 		if ch != nil {
 			switch kind {
 			case "take", "qri", "get", "exec", "set", "setex", "del":
@@ -847,7 +909,7 @@ func runSeq(c Case) Out {
 				})
 			} else {
 				err = cc.QueryRowCtx(ctx, row, "p"+p, func(ctx context.Context, conn sqlx.SqlConn, v any) error {
-					return db.byPrimary(p, true, v)
+					return db.byPrimaryC(qctx(ctx, mctx), -1, p, true, v)
 				})
 			}
 		case "qri":
@@ -863,10 +925,12 @@ func runSeq(c Case) Out {
 					})
 			} else {
 				err = cc.QueryRowIndexCtx(ctx, row, key, db.keyer,
-					func(ctx context.Context, conn sqlx.SqlConn, v any) (any, error) { return db.byIndex(u, v) },
+					func(ctx context.Context, conn sqlx.SqlConn, v any) (any, error) {
+						return db.byIndexC(qctx(ctx, mctx), -1, u, v)
+					},
 					func(ctx context.Context, conn sqlx.SqlConn, v, primary any) error {
 						text, known := db.primary(primary)
-						return db.byPrimary(text, known, v)
+						return db.byPrimaryC(qctx(ctx, mctx), -1, text, known, v)
 					})
 			}
 		case "get":
@@ -978,16 +1042,25 @@ func runSeq(c Case) Out {
 			return out
 		}
 		cancel()
+		if mctx != nil {
+			for n := 0; n < wd.nodes; n++ {
+				servers[base+n].Server().SetPreHook(nil)
+			}
+			db.onQuery = nil
+		}
 		db.mid = -1
 		switch kind {
 		case "exec", "del", "cache:exec", "cache:del":
 			// AddCleanTask hands the timer to the wheel's loop synchronously (unbuffered channel)
-			if anyDown() {
+			if anyDown() || mctx != nil {
 				delFailed = true
 			}
 		}
 		pad()
 		o.R = classify(err, db.errv)
+		if mctx != nil {
+			db.errv = errv0
+		}
 		if isRead && err == nil {
 			r := extract(row)
 			o.R, o.Pk, o.U, o.V = "row", r.Pk, strconv.FormatInt(r.U, 10), strconv.FormatInt(r.V, 10)
